@@ -654,6 +654,10 @@ def gen_c08(ch, prof):
         add('j', {'sources': [{'from': 'b', 'sub': None}, {'from': 'c', 'sub': None}], 'has_output': False,
                   'proc_ns': proc()})
     x = ch.pick('gen', order)
+    for n in order:
+        # LOOP_EXC=false ("ignore exceptions in the main loop and keep going") on some of the OTHER filters
+        if n != x and ch.chance('gen', 1, 5):
+            nodes[n]['loop_exc'] = False
     cause = ch.pick('gen', list(C08_CAUSES))
     if cause == 'raise_recv' and nodes[x].get('src'):
         cause = 'raise_send'
